@@ -1,7 +1,7 @@
 (* C19 — A configuration accepted at start-up cannot crash or corrupt replies later.
    setup4/setup6 model every stateless plugin's setup function over ANY argument vector (any
    strings, any arity) and ANY answers of the text parsers (oracles O). *)
-From Verif Require Import Base BaseProofs Net NetProofs Msg4 Msg6 Chain ChainProofs Server4 Server4Proofs Server6 Server6Proofs Plugins4 Plugins6 Setup PluginRun PluginProofs PluginSpecs PluginExamples Opt4Codec Opt4Proofs Msg4Codec Msg4CodecProofs PrefixPlugin PrefixProofs PrefixTheorems.
+From Verif Require Import Base BaseProofs Net NetProofs Msg4 Msg6 Chain ChainProofs Server4 Server4Proofs Server6 Server6Proofs Plugins4 Plugins6 Setup PluginRun PluginProofs PluginSpecs PluginExamples Opt4Codec Opt4Proofs Msg4Codec Msg4CodecProofs PrefixPlugin PrefixProofs PrefixTheorems Msg6Codec Msg6CodecProofs.
 Open Scope N_scope.
 
 Theorem setup4_ok_handler_safe :
@@ -63,6 +63,14 @@ Theorem prefix_pool_must_be_ipv6 :
   prefix_setup pip pmask size = Ok st -> length pip = 16%nat.
 Proof. exact (@PrefixTheorems.prefix_setup_ok_ipv6). Qed.
 Print Assumptions prefix_pool_must_be_ipv6.
+
+Theorem dhcp6_wire_roundtrip :
+  forall (p : pkt6) (b : bytes),
+  Forall wf_layer (p_layers p) ->
+  (forall m : imsg, p_inner p = Some m -> wf_imsg m) ->
+  fits (p_layers p) (p_inner p) -> enc_pkt6 p = Some b -> decode6 b = Some p.
+Proof. exact (@Msg6CodecProofs.decode6_encode6). Qed.
+Print Assumptions dhcp6_wire_roundtrip.
 
 (* Non-vacuity (proofs/PluginExamples.v): accepted configurations exist *)
 Example hypotheses_satisfiable :
